@@ -148,6 +148,8 @@ type Ctx struct {
 	callHook       func(c *Ctx, x *ast.CallExpr, st *State) ([]Val, bool)
 	stmtHook       func(c *Ctx, s ast.Stmt, st *State) (Flow, bool)
 	noSafeNil      bool
+	mapEvents      []mapEvent
+	mapMakes       []string // ids of maps created by make in this unit
 	onCase         func(c *Ctx, cc *ast.CaseClause, st *State)
 	curResults     []types.Object
 	resTypes       []types.Type
